@@ -308,7 +308,8 @@ PURE_CALLS = {"_Detection", "timedelta", "datetime.now", "len", "str", "int", "f
 
 def is_pure(e):
     for n in ast.walk(e):
-        if isinstance(n, ast.Call) and ast.unparse(n.func) not in PURE_CALLS and not ast.unparse(n.func).endswith((".format", ".strftime")):
+        if isinstance(n, ast.Call) and ast.unparse(n.func) not in PURE_CALLS and not ast.unparse(n.func).endswith((".format", ".strftime")) \
+                and ast.unparse(n.func).split(".")[-1].lstrip("_") not in ("Detection", "timedelta", "now"):
             return False
         if isinstance(n, (ast.Await, ast.Yield, ast.YieldFrom, ast.NamedExpr)):
             return False
